@@ -231,3 +231,12 @@ def run(ctx):
     r3_consumers(ctx)
     r4_local(ctx)
     r6_pong(ctx)
+
+
+_run_rules = run
+
+
+def run(ctx):
+    _run_rules(ctx)
+    from .. import boundaries
+    boundaries.check(ctx, 'C14.RB', 'C14')
